@@ -7,7 +7,7 @@ from hypothesis import strategies as st
 
 from conda_content_trust import authentication as A, common as C
 
-from vlib import gen_json as G, gen_metadata as GM, gpgchild, keys, ref_grammar as g, ref_openpgp, ref_verify as RV
+from vlib import cfgunit, configrun, gen_envelope as GE, gen_json as G, gen_metadata as GM, gpgchild, keys, ref_grammar as g, ref_openpgp, ref_verify as RV
 from vlib.ref_canon import canon
 from vlib import cfgunit as _cfgunit
 from vlib.runner import Inconclusive, Unit, Violation
@@ -39,7 +39,7 @@ TEST_KEY_FPR = ["917adb684e2e9fb5ed4e59909ddd19a1268b62d0", "0a14b126c986f276831
 
 CORRUPTIONS = ["none", "none", "flip_payload", "flip_header", "flip_signature", "flip_key", "header_truncated", "header_extended",
                "header_trailing_after_hashed_area", "trailer_16bit", "trailer_le", "no_04ff", "sha512", "payload_only",
-               "raw_shape", "upper_hex", "header_swap_bytes", "strip_leading_zero", "strip_leading_zero_padded"]
+               "raw_shape", "upper_hex", "header_swap_bytes", "strip_leading_zero", "strip_leading_zero_padded", "hex_newline", "hex_odd"]
 HEADER_LENS = [1, 2, 6, 35, 255, 256, 257, 300, 65535, 65536, 70000]
 
 
@@ -124,6 +124,11 @@ def build(case):
             e["see_also"] = hashlib.sha1(H).hexdigest()
         assert e["signature"].startswith("00")
         e["signature"] = e["signature"][2:] + ("00" if c.endswith("padded") else "")
+    elif c == "hex_newline":
+        f = ["other_headers", "signature", "other_headers"][pos % 3]
+        e[f] = e[f] + ["\n", " ", "\r\n", "\t"][(pos // 3) % 4]
+    elif c == "hex_odd":
+        e["other_headers"] = e["other_headers"] + "0"
     elif c == "header_swap_bytes" and len(H) >= 2:
         i = pos % (len(H) - 1)
         e["other_headers"] = (H[:i] + H[i + 1:i + 2] + H[i:i + 1] + H[i + 2:]).hex()
@@ -139,6 +144,20 @@ def check_primitive(case):
     except Exception as e:
         raise Violation("verify_gpg_signature rejects an entry built exactly as RFC 4880 v4 prescribes (header length %d): %s %s"
                         % (len(case["headers"]), type(e).__name__, str(e)[:100]), bucket="valid OpenPGP entry rejected")
+    # history: the same bytearray object verified, changed in place, verified again
+    ba = bytearray(case["payload"]) + b"!"
+    good_ba = ref_openpgp.entry(seed, bytes(ba), headers=case["headers"])
+    try:
+        A.verify_gpg_signature(copy.deepcopy(good_ba), keys.pub_hex(seed), ba)
+    except Exception as e:
+        raise Violation("verify_gpg_signature rejects a valid signature over a bytearray payload: %s" % type(e).__name__,
+                        bucket="valid OpenPGP entry rejected")
+    ba[-1] ^= 1
+    try:
+        A.verify_gpg_signature(copy.deepcopy(good_ba), keys.pub_hex(seed), ba)
+        raise Violation("after the payload bytearray was changed in place, the old signature is still accepted", bucket="accepts invalid OpenPGP entry")
+    except cryptography.exceptions.InvalidSignature:
+        pass
     e, pub, payload = build(case)
     wf = g.is_gpg_entry(e) and g.is_key(pub)
     valid = wf and ref_openpgp.valid(pub, e, payload)
@@ -375,7 +394,38 @@ def enum_big(tier):
                    "corruption": c, "pos": n * 7 + 1, "see_also": False}
 
 
+def _interrupted_sweep_cases():
+    from props import C12
+    return C12._sweep_cases().map(lambda c: dict(c, entry='verify_signable', kind=c["kind"] if c["kind"] in ['invalid', 'valid'] else 'invalid', gpg=True))
+
+
+def check_interrupted_sweep(case):
+    from props import C12
+    return C12.check_fault_sweep(case)
+
+
+@st.composite
+def _config_cases(draw):
+    calls = []
+    for _ in range(draw(st.integers(3, 5))):
+        c = draw(GE.envelopes(gpg=True))
+        calls.append(["verify_signable", GE.to_envelope(c), c["authorized"], c["threshold"], True])
+    cfg = draw(configrun.configs)
+    cfg["stdout"] = draw(st.sampled_from([None, "closed", "broken"]))
+    return {"calls": calls, "config": cfg}
+
+
+def check_config(case):
+    verdicts, labels, count = cfgunit.config_probe(case["calls"], "sound", case["config"])
+    return {"nontrivial": True, "labels": labels, "count": count}
+
+
 UNITS = [
+    Unit("config", check_config, strategy=_config_cases, quick=24, thorough=400, shards_quick=4, shrink=False,
+         doc="OpenPGP-mode envelopes in fresh interpreters (closed / broken stdout, -O, warnings, logging, environment variables): "
+             "never counted without a valid OpenPGP-mode signature by an authorized key"),
+    Unit("interrupted_sweep", check_interrupted_sweep, strategy=_interrupted_sweep_cases, quick=18, thorough=500, shards_quick=3,
+         doc="every line event and every C-level call of one verify_signable interrupted once on a fresh envelope, each followed by a normal retry of the same envelope"),
     Unit("primitive", check_primitive, essential_min=0.01, strategy=_cases, quick=1500, thorough=60000,
          essential=["corruption=none", "corruption=flip_header", "corruption=trailer_16bit", "corruption=header_truncated",
                     "hdr>=255"], doc="verify_gpg_signature returns <=> reference says valid, for corrupted reference entries"),
